@@ -168,7 +168,7 @@ def run(ctx):
         ctx.sample({"probe": name, "ops": [pl.op_show(o) for o in script][:6]})
 
     # ---------------------------------------------------------------- random scripts
-    n_short, n_long = (1500, 60) if not thorough else (20000, 1200)
+    n_short, n_long = (4000, 150) if not thorough else (40000, 2000)
     scripts = [pl.gen_script(ctx.rng, ctx.rng.randint(1, 40)) for _ in range(n_short)]
     scripts += [pl.gen_script(ctx.rng, 200) for _ in range(n_long)]
     ctx.sample({"random_script": [pl.op_show(o) for o in scripts[0]][:8]})
